@@ -2950,9 +2950,9 @@ pub fn infer_root(
         module_info,
     );
     ctx.infer_root_id = call_id;
-    let _t = ctx
-        .infer_type(e)
-        .unwrap_or(Type::Failure.into_id_with_location(e.to_location()));
+    // an error returned for the root expression (and for what it reaches through then-continuations,
+    // blocks, tuple elements, ...) is recorded like every other error instead of being dropped
+    let _t = ctx.infer_type_unwrapping(e);
     ctx.substitute_all_intermediates();
     ctx.check_all_match_exhaustiveness();
     ctx
